@@ -93,8 +93,9 @@ bad = []
 g = v.grad
 if old is not None and g is not None and INV != "(x.sum() * 2.0).backward()" and np.array_equal(g, old): bad.append("the stale gradient of the view is readable again")
 if mid is None and g is not None: bad.append("v.grad read None after the invalidation and reads %%s after the next use of v" %% (g.tolist(),))
-if INV == "(x.sum() * 2.0).backward()" and g is not None and x.grad is not None:
-    exp = eval(VIEW.replace("x", "x.grad", 1)) if False else None
+if INV == "(x.sum() * 2.0).backward()" and mid is not None:
+    want = eval(VIEW, {"x": x.grad, "np": np})
+    if mid.shape != want.shape or not np.array_equal(mid, want): bad.append("after another backward pass v.grad is neither None nor the view of x's new gradient: %%s" %% (mid.tolist(),))
 print(bad)
 print('REPRODUCED' if bad else 'NOT-REPRODUCED'); sys.exit(1 if bad else 0)
 """
@@ -121,7 +122,14 @@ def run_stale_view(spec, tier, mg):
                 exec(then, env)
                 g = v.grad
                 why = None
-                if mid is None and g is not None:
+                if iname == "other-backward" and mid is not None:
+                    # the base received a NEW gradient: the view reads None, or the corresponding view of the new gradient - never the old values
+                    want = eval(view, {"x": x.grad, "np": np})
+                    if mid.shape != want.shape or [t.uid for t in terms_of(mid)] != [t.uid for t in terms_of(np.asarray(want))]:
+                        why = "after `%s` v.grad is neither None nor the view of x's new gradient" % inv
+                if why is not None:
+                    pass
+                elif mid is None and g is not None:
                     why = "v.grad read None after `%s` and is readable again after `%s`" % (inv, then.replace("\n", "; "))
                 elif g is not None and old is not None and iname != "other-backward" and [t.uid for t in terms_of(g)] == old:
                     why = "the gradient v had before `%s` is still readable after `%s`" % (inv, then.replace("\n", "; "))
